@@ -123,8 +123,10 @@ static void c04_gen(Tape &t, Case &c) {
   GenOpts o;
   o.maxm = 2 + (int)t.below(7); o.maxn = 2 + (int)t.below(7); o.bigness = 1;
   GenLP g;
-  static const int fam[] = {F_OPT, F_OPT, F_ILL, F_INF, F_FACE, F_SHAPE, F_RAND, F_CYC, F_OPT, F_ILL, F_INF, F_FACE, F_RAND, F_FIXB};
-  gen_lp_family(t, o, fam[t.below(14)], g);
+  static const int fam[] = {F_OPT, F_OPT, F_ILL, F_INF, F_FACE, F_SHAPE, F_RAND, F_CYC, F_OPT, F_ILL, F_INF, F_FACE, F_RAND, F_FIXB, F_DUP};
+  int fk = fam[t.below(15)];
+  if (t.chance(1, 14)) { fk = F_DUP; o.minn = 400; }     // wide: >= 400 columns take the crash-basis path
+  gen_lp_family(t, o, fk, g);
   c.add_model(g.m);
   put_meta(c, g);
   c.ops.push_back(Op("route").I(t.below(R_NROUTES)));
